@@ -299,8 +299,10 @@ class SimulationMaximumStep(SimulationWithJumpTimes):
                 positions = np.flatnonzero(aug_dts > epsilon)
             aug_jump_times = np.cumsum(aug_dts)
 
-            # without the maturity itself (nor a point that rounding puts on it)
+            # without the maturity itself -- the last point, whichever side of the maturity rounding puts it -- nor a
+            # point that rounding puts on it
             before_maturity = aug_jump_times < maturity
+            before_maturity[-1] = False
             return aug_jump_times[before_maturity], aug_jump_values[..., before_maturity]
 
         return _build_finer_grid_default if epsilon >= maturity else _build_finer_grid
